@@ -724,7 +724,8 @@ def rule_txnoresp(ctx, R):
             for st in bb["s"]:
                 if st["k"] == "=" and st["r"]["k"] == "agg" and st["r"]["a"] == "protocol::resp::RespFrame::NoResponse":
                     hits.append(i)
-        regs = [i for i, t in b.calls() if callee(t) == "network::blocking::BlockingManager::register_blocked"]
+        import rules_block
+        regs = [i for i, t in b.calls() if callee(t) in rules_block.registration_fns(ctx)]
         if b.trait and "RespFrame" in b.self_ty:
             R.trivial(); continue      # derived Clone/PartialEq/Debug of the frame type itself
         if (hits or regs) and "std::process::exit" in ctx.cg.reach([fn], spawn=True):
